@@ -23,6 +23,9 @@ CHECKS = {
  "C06": dict(category="exploration", technique="Hypothesis-generated transcripts with the CDS placed as a contiguous run of the transcript (biased to ends/exon boundaries), judged by position lists T and C=T[i:j]",
    text="Every transcript, CDS and chromosome position (span+-1) through every conversion and its inverse, both paths chromosome->CDS, random intervals in each system, amino-acid index, non-coding refusals, 5'UTR/CDS/3'UTR partition (positions, order, sequence concatenation), introns and span.",
    note="An empty UTR may be any zero-length location but never an exception.", ref="DESIGN.md §5 C06"),
+ "C11": dict(category="exploration", technique="Hypothesis-generated collections with special-character qualifiers: exported text re-read by an independent GFF3 reader (percent-decoding) and by BioCantor's own parsers, then re-exported (round trip / fixpoint)",
+   text="Syntax leg: header, 9 columns, 1-based inclusive coordinates equal to the source blocks (chromosome or chunk-relative), strand symbols, phase only on CDS and equal to the frame-derived phase, unique IDs, Parent defined on an earlier line and of the right type, rows ordered by start, reserved keys never emitted from qualifiers, every key/value decoding back to the source text, FASTA section equal to the sequence. Re-parse leg: exons, CDS blocks, frames, strand, ids, symbols, locus tag, biotypes, protein id, product, qualifiers per gene; re-export equals the file up to digest-valued IDs and is a fixpoint. Attribute leg: 2500+ escaping cases.",
+   note="Re-parse excludes comma/double quote (gffutils limits). Known finding F24 (duplicate CDS row IDs for isoforms sharing a CDS; pinned by repository GFF3 fixtures).", ref="DESIGN.md §5 C11"),
  "C14": dict(category="exploration", technique="Hypothesis-generated transcripts/features x chunk windows x export modes; the exported text is re-read by an independent 12-column BED reader and decoded back to blocks",
    text="BED12 format invariants (block count, first start 0, ascending non-overlapping blocks, last block reaches end, thick range inside) and exact decoding to the exported blocks, span, strand, name, score, RGB and CDS bounds in chromosome and chunk-relative coordinates.",
    note="Chunk windows contain the interval; thickStart=thickEnd=0 accepted for non-coding records (documented convention).", ref="DESIGN.md §5 C14"),
